@@ -23,6 +23,10 @@ def all_proofs():
           mutants=[('eof_force_keeps_more', r'options::nl_end_of_file\(\) == IARF_FORCE\n', 'false\n', 'postcondition'),
                    ('eof_min_from_sof', r'pc->SetNlCount\(options::nl_end_of_file_min\(\)\);', 'pc->SetNlCount(options::nl_start_of_file_min());', 'postcondition'),
                    ('frag_ignored', r'if \(  cpd.frag_cols == 0\n      && \(  \(options::nl_end_of_file\(\) & IARF_REMOVE\)', 'if (  true\n      && (  (options::nl_end_of_file() & IARF_REMOVE)', 'postcondition')]),
+        Proof('newlines_eat_start_end_single', impl=IMPL, spec=SPEC, harness='h_newlines_eat_start_end', enforce='newlines_eat_start_end/newlines_eat_start_end_single_contract',
+              defines=['SINGLE_CHUNK_LIST'], canaries=2, dead_ok=['adds a newline at the end'], expect=['newlines_eat_start_end_single_contract.postcondition'],
+              functions=['newlines/eat_start_end.cpp:newlines_eat_start_end (on a list of one chunk: head == tail)'],
+              mutants=[('cached_list_ends', r'(?s)(   Chunk \*pc;\n)(.*?)pc = Chunk::GetTail\(\);', r'\1   Chunk *cached_tail = Chunk::GetTail();\n\2pc = cached_tail;', 'Chunk::Delete')]),
         Proof('can_increase_nl', impl='contracts/C20/cinl.impl.cpp', spec=SPEC, enforce='can_increase_nl/can_increase_nl_contract', canaries=2,
               rules={'can_increase_nl': []}, expect=['can_increase_nl_contract.postcondition'], functions=['newlines/can_increase_nl.cpp:can_increase_nl'],
               assumed=['the previous non-comment chunk / previous chunk / next chunk of the newline are three arbitrary chunks (navigation not under contract); nl_squeeze_ifdef off'],
@@ -58,7 +62,7 @@ EXPLANATION = ('Kernel of C20: blank_line_max caps nl_count at the option value 
                'too_big_for_nl_max returns normally only if every blank-line count option (set generated from the option documentation) is <= nl_max.')
 K = ['K4 do_blank_lines (one iteration of the chunk loop): with nl_max = N > 0 and every documented count option <= N, a newline chunk that is touched ends with at most N line breaks (the +-1 bookkeeping of the first / last newline included)',
      'K5 can_increase_nl: with eat_blanks_before_close_brace / eat_blanks_after_open_brace a newline next to the brace may not grow (result false => do_blank_lines forces one line break), except for the documented overrides nl_inside_namespace > 0 and nl_inside_empty_func > 0',
-     'K1 blank_line_max / blank_line_set', 'K2 newlines_eat_start_end: exact start/end-of-file policy', 'K3 too_big_for_nl_max covers every count option of the registry']
+     'K1 blank_line_max / blank_line_set', 'K2 newlines_eat_start_end: exact start/end-of-file policy; on a one-chunk file the chunk is deleted at most once and not touched afterwards', 'K3 too_big_for_nl_max covers every count option of the registry']
 G = [
      'newlines_cleanup_braces, newline_add_*, eat_blanks_* (brace_pair.cpp) and the four-pass loop in uncrustify_file: not under contract',
      'main() calls too_big_for_nl_max() iff nl_max > 0, after the config is loaded and before any source is read (10-line call site, read, not sliced)',
